@@ -513,7 +513,162 @@ def c16_dialog(inp):
     return {"reproduced": False, "detail": f"{plot} dialog agrees with the list-of-pairs model on {checked} action sequences (length <= 4)"}
 
 
-DRIVERS = {"c16_dialog": c16_dialog, "c02_merge": c02_merge, "c09_run": c09_run, "c10_run": c10_run, "c10_fn": c10_fn}
+# ----------------------------------------------------------------------------------
+# C03 split / C14 preprocessing histories against an executable model (scipy called directly)
+# ----------------------------------------------------------------------------------
+
+def c03_split(inp):
+    import itertools
+    from pyoma2.functions import gen
+    n_checked = 0
+    for n in range(2, 7):
+        y = np.arange(7 * n, dtype=float).reshape(7, n) + 0.5
+        for k in range(1, n):
+            for refs in itertools.permutations(range(n), k):
+                other = np.arange(5 * 3, dtype=float).reshape(5, 3)
+                try:
+                    out = gen.pre_multisetup([other.copy(), y.copy()], [[2, 0], list(refs)])
+                except Exception as e:      # noqa: BLE001
+                    return {"reproduced": True, "detail": f"pre_multisetup raised {type(e).__name__} for n={n}, refs={list(refs)}"}
+                rov = [c_ for c_ in range(n) if c_ not in refs]
+                want_ref, want_mov = y[:, list(refs)].T, y[:, rov].T
+                got = out[1]
+                if got["ref"].shape != want_ref.shape or got["mov"].shape != want_mov.shape or \
+                        not np.array_equal(got["ref"], want_ref) or not np.array_equal(got["mov"], want_mov):
+                    return {"reproduced": True, "detail": f"pre_multisetup split wrong for {n} channels, reference list {list(refs)}: 'ref' rows "
+                                                          f"{got['ref'][:, 0].tolist()} (want {want_ref[:, 0].tolist()}), 'mov' rows "
+                                                          f"{got['mov'][:, 0].tolist()} (want {want_mov[:, 0].tolist()})"}
+                n_checked += 1
+    return {"reproduced": False, "detail": f"pre_multisetup split correct for all {n_checked} ordered reference subsets of <= 6 channels"}
+
+
+def c14_sequences(inp):
+    import itertools
+    from scipy import signal
+    from pyoma2.functions import gen
+    from pyoma2.setup.multi import MultiSetup_PreGER
+    from pyoma2.setup.single import SingleSetup
+    from pyoma2.algorithms.fdd import FDD
+    rng = np.random.RandomState(0)
+    ignore_T = inp.get("ignore_T", True)      # the duration defect of _decimate_data is a recorded finding
+    ops = [("decimate", dict(q=2)), ("decimate", dict(q=3, ftype="fir")), ("decimate", dict(q=2, n=4, zero_phase=False)),
+           ("detrend", dict()), ("detrend", dict(type="constant")), ("filter", dict(Wn=2.0, order=4, btype="lowpass")),
+           ("rollback", dict()), ("add", dict())]
+
+    def model_apply(data, fs, op, kw):
+        if op == "decimate":
+            k2 = dict(kw)
+            q = k2.pop("q")
+            return signal.decimate(data, q, axis=0, **k2), fs / q
+        if op == "detrend":
+            return signal.detrend(data, axis=0, **kw), fs
+        if op == "filter":
+            sos = signal.butter(kw["order"], kw["Wn"], btype=kw["btype"], output="sos", fs=fs)
+            return signal.sosfiltfilt(sos, data, axis=0), fs
+        raise ValueError(op)
+
+    def split(dss, refs):
+        out = []
+        for y, r in zip(dss, refs):
+            rov = [c_ for c_ in range(y.shape[1]) if c_ not in r]
+            out.append({"ref": y[:, list(r)].T, "mov": y[:, rov].T})
+        return out
+
+    def call(obj, op, kw):
+        if op == "decimate":
+            k2 = dict(kw)
+            q = k2.pop("q")
+            obj.decimate_data(q, **k2)
+        elif op == "detrend":
+            obj.detrend_data(**kw)
+        elif op == "filter":
+            obj.filter_data(**kw)
+        elif op == "rollback":
+            obj.rollback()
+    close = lambda a, b: a.shape == b.shape and np.allclose(a, b, rtol=1e-9, atol=1e-12)    # noqa: E731
+    checked = 0
+    for L in (1, 2, 3):
+        for seq in itertools.product(range(len(ops)), repeat=L):
+            if L == 3 and (seq[0] > 5 or checked > 700):
+                continue
+            for kind in ("single", "multi"):
+                fs0 = 40.0
+                if kind == "single":
+                    user = rng.randn(1500, 3)
+                    keep = user.copy()
+                    try:
+                        st = SingleSetup(user, fs=fs0)
+                        mdata, mfs = keep.copy(), fs0
+                        desc = []
+                        for j in seq:
+                            op, kw = ops[j]
+                            desc.append(f"{op}{kw if kw else ''}")
+                            if op == "add":
+                                alg = FDD(name=f"a{len(desc)}")
+                                st.add_algorithms(alg)
+                                if not (alg.data is st.data and alg.fs == st.fs and abs(alg.dt - 1 / st.fs) < 1e-15):
+                                    return {"reproduced": True, "detail": f"SingleSetup after {desc}: algorithm not bound to the current data/fs"}
+                                continue
+                            call(st, op, kw)
+                            if op == "rollback":
+                                mdata, mfs = keep.copy(), fs0
+                            else:
+                                mdata, mfs = model_apply(mdata, mfs, op, kw)
+                            ok = (close(st.data, mdata) and abs(st.fs - mfs) < 1e-12 and abs(st.dt - 1 / mfs) < 1e-15 and
+                                  st.Ndat == mdata.shape[0] and (ignore_T or abs(st.T - mdata.shape[0] / mfs) < 1e-9)
+                                  and st.Nch == mdata.shape[1])
+                            if not ok:
+                                return {"reproduced": True, "detail": f"SingleSetup after {desc}: data/fs/dt/Ndat/T = "
+                                                                      f"{st.data.shape}/{st.fs}/{st.dt}/{st.Ndat}/{st.T}, model "
+                                                                      f"{mdata.shape}/{mfs}/{1 / mfs}/{mdata.shape[0]}/{mdata.shape[0] / mfs}"
+                                                                      f"{'' if close(st.data, mdata) else ' (data differ)'}"}
+                            if not np.array_equal(user, keep) or not np.array_equal(st._initial_data, keep):
+                                return {"reproduced": True, "detail": f"SingleSetup after {desc}: user array or initial copy modified"}
+                    except Exception as e:      # noqa: BLE001
+                        return {"reproduced": True, "detail": f"SingleSetup: {type(e).__name__} ({e}) during {desc}"}
+                else:
+                    d1, d2 = rng.randn(1500, 3), rng.randn(1300, 4)
+                    refs = [[2, 0], [1, 3]]
+                    keeps = [d1.copy(), d2.copy()]
+                    try:
+                        st = MultiSetup_PreGER(fs=fs0, ref_ind=[list(r) for r in refs], datasets=[d1, d2])
+                        mds, mfs = [k_.copy() for k_ in keeps], fs0
+                        desc = []
+                        for j in seq:
+                            op, kw = ops[j]
+                            desc.append(f"{op}{kw if kw else ''}")
+                            if op == "add":
+                                alg = FDD(name=f"a{len(desc)}")
+                                st.add_algorithms(alg)
+                                if alg.data is not st.data or alg.fs != st.fs:
+                                    return {"reproduced": True, "detail": f"PreGER after {desc}: algorithm not bound to the current data/fs"}
+                                continue
+                            call(st, op, kw)
+                            if op == "rollback":
+                                mds, mfs = [k_.copy() for k_ in keeps], fs0
+                            else:
+                                mds = [model_apply(m, mfs, op, kw)[0] for m in mds]
+                                mfs = model_apply(keeps[0], mfs, op, kw)[1]
+                            want = split(mds, refs)
+                            ok = all(close(g["ref"], w["ref"]) and close(g["mov"], w["mov"]) for g, w in zip(st.data, want))
+                            meta = (abs(st.fs - mfs) < 1e-12 and abs(st.dt - 1 / mfs) < 1e-15 and
+                                    list(st.Ndats) == [m.shape[0] for m in mds] and
+                                    (ignore_T or all(abs(t - m.shape[0] / mfs) < 1e-9 for t, m in zip(st.Ts, mds))))
+                            if not (ok and meta):
+                                return {"reproduced": True, "detail": f"MultiSetup_PreGER after {desc}: "
+                                                                      f"{'data handed to algorithms differ from the model; ' if not ok else ''}"
+                                                                      f"fs/dt/Ndats/Ts = {st.fs}/{st.dt}/{list(st.Ndats)}/{[round(t, 4) for t in st.Ts]}, "
+                                                                      f"model {mfs}/{1 / mfs}/{[m.shape[0] for m in mds]}/{[round(m.shape[0] / mfs, 4) for m in mds]}"}
+                            if not (np.array_equal(d1, keeps[0]) and np.array_equal(d2, keeps[1])
+                                    and np.array_equal(st._initial_datasets[0], keeps[0])):
+                                return {"reproduced": True, "detail": f"PreGER after {desc}: user arrays or initial copies modified"}
+                    except Exception as e:      # noqa: BLE001
+                        return {"reproduced": True, "detail": f"MultiSetup_PreGER: {type(e).__name__} ({e}) during {desc}"}
+                checked += 1
+    return {"reproduced": False, "detail": f"preprocessing histories agree with the scipy model on {checked} sequences (length <= 3)"}
+
+
+DRIVERS = {"c03_split": c03_split, "c14_sequences": c14_sequences, "c16_dialog": c16_dialog, "c02_merge": c02_merge, "c09_run": c09_run, "c10_run": c10_run, "c10_fn": c10_fn}
 
 
 def main():
